@@ -196,7 +196,16 @@ def cumulative_case(ctx, rng, idx):
             else:
                 m.set_dosing_regimen(**kw)
         else:
-            if am is not None and len(am.comps) > 1:
+            sibling = [] if am is None else [
+                s_ for c_, s_ in am.comps
+                if c_ == comp and s_ + '_amount' != var]
+            if sibling:
+                # another species of the SAME compartment was dosed first,
+                # by the same kind of route
+                m.set_administration(comp, amount_var=sibling[0] + '_amount',
+                                     direct=direct)
+                feats['rerouted_within_compartment'] = True
+            elif am is not None and len(am.comps) > 1:
                 j0 = int(rng.integers(len(am.comps)))
                 c0, s0 = am.comps[j0]
                 m.set_administration(c0, amount_var=s0 + '_amount',
